@@ -34,7 +34,7 @@ ASSUMPTIONS = [
 MOD = "dagrt.codegen.dag_ast"
 
 
-def check(run, P):
+def _check_main(run, P):
     run.rule("C06.splice", "a sequence pushed on the consuming (left) end of a "
              "work-list deque is passed through reversed()", minimum=1)
     run.rule("C06.pop", "every pop/peek on a work-list deque is dominated on every "
@@ -865,3 +865,9 @@ def _flat(run, P):
     run.ob("C06.flat", fb, fb.node, ok,
            construct="flat_Block(*nodes): in-order extend/append, Block(*result)",
            why="merged arms must run the earlier statements first")
+
+
+def check(run, P):
+    _check_main(run, P)
+    from . import generic
+    generic.lints(run, P, "C06")
